@@ -27,11 +27,35 @@ pub fn strategy() -> BoxedStrategy<Case> {
         issue_spec_strategy(ClaimCfg::FULL, HONEST_PATHS, holder_strategy()),
         choices_strategy(),
         prop::option::weighted(0.7, (aud_nonce_strategy(), aud_nonce_strategy())),
+        prop::option::weighted(0.25, proptest::collection::vec((choices_strategy(), any::<u8>()), 1..3)),
     )
-        .prop_map(|(issue, ch, kb)| {
+        .prop_map(|(issue, ch, kb, earlier)| {
             let selection = selection_for(&issue, &ch, SelOpts { allow_null: false });
             let kb = if issue.holder.is_some() { kb.map(|(aud, nonce)| KbArgs { default_alg: nonce.chars().count() % 2 == 1, aud, nonce, key: issue.holder }) } else { None };
-            C01Case { issue, selection, kb }
+            // earlier calls on the same holder: another selection (independent, or the checked
+            // one with some nodes deselected, or with members reversed), key-bound when possible
+            let earlier = earlier
+                .unwrap_or_default()
+                .into_iter()
+                .map(|(ech, bits)| {
+                    let sel = match bits % 4 {
+                        0 => sdjwt_model::derive::reverse_members(&selection),
+                        1 => sdjwt_model::derive::narrow_selection(&selection, &mut sdjwt_model::derive::Choices::new(&ech)),
+                        _ => selection_for(&issue, &ech, SelOpts { allow_null: false }),
+                    };
+                    let ekb = if issue.holder.is_some() && bits & 4 == 0 {
+                        // sometimes the very aud / nonce of the checked call
+                        match (&kb, bits & 8 != 0) {
+                            (Some(k), true) => Some(k.clone()),
+                            _ => Some(KbArgs { default_alg: bits & 16 != 0, aud: format!("https://earlier{}.example", bits), nonce: format!("earlier-{}", bits), key: issue.holder }),
+                        }
+                    } else {
+                        None
+                    };
+                    sdjwt_model::sut::EarlierCall { selection: sel, kb: ekb }
+                })
+                .collect();
+            C01Case { issue, selection, kb, earlier }
         })
         .boxed()
 }
